@@ -46,7 +46,12 @@ func main() {
 	noEvidence := flag.Bool("no-evidence", false, "do not write the evidence file")
 	overlayF := flag.String("overlay", "", "JSON file mapping absolute paths to replacement file paths (for self-tests)")
 	jobs := flag.Int("j", runtime.NumCPU(), "parallel solver jobs")
+	replayF := flag.String("replay", "", "re-run the call recorded in a replay file against the real code")
+	witnessAll := flag.Int("witness-all", 0, "run the concrete contract check (N random records per function) for every target function")
 	flag.Parse()
+	if *replayF != "" {
+		os.Exit(doReplay(*replayF, *repo, *verif))
+	}
 	t0 := time.Now()
 
 	timeout := 20
@@ -85,6 +90,7 @@ func main() {
 		}
 		overlay = map[string][]byte{}
 		for k, v := range m {
+			overlayPaths[k] = v
 			c, err := os.ReadFile(v)
 			if err != nil {
 				fatal("%v", err)
@@ -113,6 +119,7 @@ func main() {
 			fatal("specs: %v", err)
 		}
 		lastWorld = w
+		theWorld = w
 		// target functions
 		var targets []*FuncSpec
 		if cfg != nil {
@@ -235,6 +242,36 @@ func main() {
 		}
 	}
 	genSecs := time.Since(t0).Seconds()
+	if *witnessAll > 0 {
+		bad := 0
+		var names []string
+		for f := range funcsUnderContract {
+			names = append(names, f)
+		}
+		sort.Strings(names)
+		for _, f := range names {
+			k := strings.Index(f, ".")
+			fs := theWorld.FuncSpecs[modPath+"/"+f[:k]+"."+f[k+1:]]
+			if fs == nil {
+				continue
+			}
+			res := theWorld.witnessFor(fs, nil, *repo, *witnessAll, nil)
+			if res == nil {
+				fmt.Printf("%-40s (not drivable)\n", f)
+				continue
+			}
+			fmt.Printf("%-40s tried=%v admissible=%v confirmed=%v %v %v\n", f, res["records_tried"], res["records_admissible"], res["confirmed"], res["violated"], res["error"])
+			if c, _ := res["confirmed"].(bool); c {
+				bad++
+				b, _ := json.Marshal(res["inputs"])
+				fmt.Printf("   inputs: %s outputs: %v panic: %v\n", b, res["outputs"], res["panic"])
+			}
+		}
+		if bad > 0 {
+			os.Exit(1)
+		}
+		os.Exit(0)
+	}
 
 	if *dump != "" {
 		re := regexp.MustCompile(*dump)
@@ -570,4 +607,46 @@ func writeReplay(path, prop string, o *Obligation, paths, failed int, repo, veri
 	b, _ := json.MarshalIndent(r, "", " ")
 	os.WriteFile(path, b, 0644)
 	return confirmed
+}
+
+// doReplay re-runs the concrete call recorded in a replay file on the current tree.
+func doReplay(path, repo, verif string) int {
+	b, err := os.ReadFile(path)
+	if err != nil {
+		fatal("%v", err)
+	}
+	var r map[string]interface{}
+	if err := json.Unmarshal(b, &r); err != nil {
+		fatal("replay file: %v", err)
+	}
+	prop, _ := r["property"].(string)
+	wit, _ := r["witness"].(map[string]interface{})
+	if wit == nil || wit["inputs"] == nil {
+		fmt.Printf("replay file %s carries no concrete input (obligation %v failed without a witness); re-run ./check %s to re-decide the obligation\n", path, r["obligation"], prop)
+		return 0
+	}
+	w, err := LoadWorld(repo, "verif", nil, []string{"./..."})
+	if err != nil {
+		fatal("load: %v", err)
+	}
+	if err := w.LoadSpecs(filepath.Join(verif, "speclib")); err != nil {
+		fatal("specs: %v", err)
+	}
+	theWorld = w
+	fnKey, _ := r["function"].(string)
+	fs := w.FuncSpecs[fnKey]
+	if fs == nil {
+		fatal("no contract for %s", fnKey)
+	}
+	res := w.witnessFor(fs, nil, repo, 0, []interface{}{wit["inputs"]})
+	if res != nil {
+		if c, _ := res["confirmed"].(bool); c {
+			out, _ := json.MarshalIndent(res, "", " ")
+			fmt.Printf("replay reproduces the violation on the current tree:\n%s\n", out)
+			fmt.Printf("VIOLATION property=%s replay=%s\n", prop, path)
+			return 1
+		}
+	}
+	fmt.Printf("replay of %s: the recorded call satisfies the contract on the current tree (%v)\n", path, res)
+	return 0
 }
